@@ -723,7 +723,7 @@ theorem handleClosed_extra (e : Engine) (hinv : Inv e) (hx : Extra false [] e.vi
   · exact hx
   · simp only []
     let e0 : Engine := { e with state := .disconnected, connackDeadline := none, nextPing := none, pingDeadline := none, timeouts := [] }
-    have hok0 : e0.core.Ok := ((Pres.of_core_conn (e := e) (e' := e0) false rfl (by simp)) hok).1
+    have hok0 : e0.core.Ok := ((Pres.of_core_conn_to (e := e) (e' := e0) false [] rfl (by simp) (by simp)) hok).1
     have h0 : Big [] [] e0.view := by
       show Big [] [] { e.view with state := .disconnected, noTimeouts := true, connackSet := false }
       exact { h with h1 := (fun hh => by cases hh), c1 := (fun hh => by cases hh), f := (fun hh => by cases hh) }
@@ -831,7 +831,7 @@ theorem step_inv2 (e : Engine) (ev : Event) (hinv : Inv2 e) : Inv2 (step e ev).1
   obtain ⟨hi, hx⟩ := hinv
   have hb : ∀ t, Inv (e.begin t) := fun t => by
     obtain ⟨hok, h, hD, hS⟩ := hi
-    exact ⟨⟨hok.sorted, hok.ids, hok.userKind, hok.wc, hok.slow⟩, h, hD, hS⟩
+    exact ⟨⟨hok.sorted, hok.ids, hok.userKind, hok.wc, hok.slow, hok.to⟩, h, hD, hS⟩
   have hbx : ∀ t, Extra false [] (e.begin t).view := fun t => hx
   have hf : ∀ (en : Engine) (r : Res), Extra false [] en.view → Extra false [] (en.finish r).1.view := fun en r h => h
   have hh : ∀ (x : Engine × Res), Extra false [] x.1.view → Extra false [] (haltOnErr x).1.view := by
